@@ -254,10 +254,16 @@ def gen_inputs(tier, rng):
         ext = colext = None
         if i % 3 == 1: ext = EXTS_DS[(i // 3) % len(EXTS_DS)]
         if i % 3 == 2 and (i // 3) % 2 == 0: colext = EXTS_COL[(i // 6) % len(EXTS_COL)]
-        ds = rand_dataset(rng, maxpix if i % 4 else 9, ext, rng.choice(GEOMS))
+        geom = rng.choice(GEOMS)
+        ds = rand_dataset(rng, maxpix if i % 4 else 9, ext, geom)
         if ds["m"] is None: continue
         n = n_unmasked(ds)
         nobj = rng.choice([1, 1, 2, 2, 3])
+        if not thorough and n > 9:
+            # quick tier: Delaunay weights are 53-bit rationals, the exact evaluation inside Coq of a case with many pixels AND a Delaunay
+            # mapper AND three objects costs ~20 s; such cases stay in the thorough tier, here the big masks get rectangular mappers only
+            heavy_ok = False
+        else: heavy_ok = True
         objs = [rand_obj(rng, n) for _ in range(nobj)]
         if i % 7 == 0: objs = [rand_obj(rng, n, "func") for _ in range(nobj)]          # factory: all function lists
         if i % 7 == 1: objs = [rand_obj(rng, n, rng.choice(["rect", "delaunay"])) for _ in range(max(2, nobj))]   # several mappers
@@ -269,6 +275,8 @@ def gen_inputs(tier, rng):
         if ext and all(o["kind"] == "func" for o in objs):
             # an extreme dataset always meets a mapper (the w-tilde tables are only used then), at a random position
             objs[rng.randrange(len(objs))] = rand_obj(rng, n, rng.choice(["rect", "rect", "delaunay"]))
+        if not heavy_ok:
+            objs = [(rand_obj(rng, n, "rect", None) if o["kind"] == "delaunay" else o) for o in objs]
         eps = rng.choice([None, "1/1024", "1/2", "1/1024"])
         if ext in ("noise_huge", "psf_tiny"): eps = rng.choice([None, "1/1073741824"])
         yield {"op": "inv", "ds": ds, "objs": objs, "eps": eps, "rseed": rng.randrange(10 ** 6), "ext": ext or colext, "k": i}
